@@ -1,5 +1,68 @@
-import ZorgVerif.Model.Sql
+import ZorgVerif.Lemmas.SqlRefines
+/-!
+# C03 — A WHERE filter returns exactly the indexed notes that satisfy it
+
+`Model/Filter.lean` — `satOr`: the specification, a direct reading of the statement (membership tests,
+presence tests, inclusive date ranges, typed property comparisons, smart-case literal substring,
+`*`-glob, link resolution through ID/RID/ZID, ∧/∨/nesting, negation as complement; negated comparison =
+exists ∧ ¬cmp).  `Model/Sql.lean` — `sqlOr`: the meaning of the SQL `_query_converter.py` emits, helper by
+helper, with SQLite's `LIKE … ESCAPE`, `lower()`, `date()`, `CAST`, `IN`/`NOT IN`.
+-/
 namespace ZorgVerif.C03
-open ZorgVerif.Sql
-theorem C03_placeholder : like "%a\\_b%".toList (some '\\') "xa_by".toList = true := by decide
+open ZorgVerif ZorgVerif.Query ZorgVerif.Filter ZorgVerif.Sql
+
+/-- **Refinement**: for every index, every note with one value per property key and lower-case path /
+link names, and every filter tree (any depth, every atom kind, every literal — `%`, `_`, `\` included)
+whose file/link literals are lower-case, the emitted SQL evaluates exactly like the specification. -/
+theorem C03_refines (idx : Index) (today : Date) (n : NoteRow) (hn : RowWF n) (f : List AndF) (hf : OrWF f) :
+    sqlOr idx today n f = satOr idx today n f := Sql.C03_refines idx today n hn f hf
+
+/-- the notes a query returns (those for which the SQL condition is true) -/
+def resultSql (idx : Index) (today : Date) (f : List AndF) : List NoteRow :=
+  idx.filter (fun n => sqlOr idx today n f == some true)
+
+/-- …are exactly the indexed notes that satisfy the expression. -/
+theorem C03_result (idx : Index) (today : Date) (f : List AndF) (hidx : ∀ n ∈ idx, RowWF n) (hf : OrWF f) :
+    resultSql idx today f = idx.filter (fun n => satOr idx today n f == some true) := by
+  unfold resultSql
+  apply List.filter_congr
+  intro n hn
+  rw [C03_refines idx today n (hidx n hn) f hf]
+
+/-- every text literal is taken literally: the LIKE pattern built for a quoted text matches exactly the
+bodies that contain it up to ASCII case (then the smart-case rule decides which comparison is used) -/
+theorem C03_text_literal (v b : Str) : like (descLikeArg v) (some '\\') b = ciInfix v b :=
+  like_descLikeArg v b
+
+/-- a negated tag / text / file / link / existence filter is the complement of its positive form -/
+theorem C03_negation_complement (idx : Index) (today : Date) (n : NoteRow) :
+    (∀ k name, satAtom idx today n (.tag k true name) = (satAtom idx today n (.tag k false name)).map (!·)) ∧
+    (∀ v cs, satAtom idx today n (.desc v cs true) = (satAtom idx today n (.desc v cs false)).map (!·)) ∧
+    (∀ g, satAtom idx today n (.file g true) = (satAtom idx today n (.file g false)).map (!·)) ∧
+    (∀ t, satAtom idx today n (.link t true) = (satAtom idx today n (.link t false)).map (!·)) ∧
+    (∀ k v vt, satAtom idx today n (.prop k v .exists vt true) = (satAtom idx today n (.prop k v .exists vt false)).map (!·)) := by
+  refine ⟨?_, ?_, ?_, ?_, ?_⟩
+  · intro k name; simp [satAtom]
+  · intro v cs; simp [satAtom]
+  · intro g; simp [satAtom]
+  · intro t; simp [satAtom]
+  · intro k v vt; simp only [satAtom]; cases n.props.lookup k <;> simp
+
+/-- a negated comparison keeps the requirement that the property exists -/
+theorem C03_negated_comparison_needs_property (idx : Index) (today : Date) (n : NoteRow)
+    (k v : Str) (op : PropOp) (vt : VType) (hop : op ≠ .exists) (hno : n.props.lookup k = none) :
+    satAtom idx today n (.prop k v op vt true) = some false := by
+  cases op <;> first | exact absurd rfl hop | (simp only [satAtom, hno]; rfl)
+
+/-! Non-vacuity: a concrete index and filters with metacharacters, evaluated by the kernel -/
+def exRow (zid path body : String) (links : List String) (props : List (String × String)) : NoteRow :=
+  { zid := zid.toList, path := path.toList, kind := .openTodo, priority := some 1, body := body.toList,
+    cdate := ⟨2024, 1, 1⟩, mdate := ⟨2024, 1, 2⟩, areas := ["work".toList], contexts := [], people := [], projects := [],
+    links := links.map String.toList, props := props.map (fun (a, b) => (a.toList, b.toList)) }
+def exIdx : Index := [exRow "240101#00" "a_b.zo" "fix Foo_bar 50%_done" ["axb#x", "a_b"] [("due", "2024-03-13")],
+                      exRow "240101#01" "axb.zo" "fix foo-bar 50x_done" ["a_b#top"] [("ID", "g1")]]
+example : (exIdx.map (fun n => satOr exIdx ⟨2024, 6, 15⟩ n [.mk [.desc "Foo_bar".toList false false] []])) = [some true, some false] := by decide +kernel
+example : (exIdx.map (fun n => sqlOr exIdx ⟨2024, 6, 15⟩ n [.mk [.desc "50%_".toList false false, .link "a_b".toList true] []])) = [some false, some false] := by decide +kernel
+example : (exIdx.map (fun n => sqlOr exIdx ⟨2024, 6, 15⟩ n [.mk [.file "a_b.zo".toList false] []])) = [some true, some false] := by decide +kernel
+
 end ZorgVerif.C03
